@@ -113,6 +113,8 @@ def run_unit(unit, seed=0, both=False):
                                                'seconds': v.seconds, 'kind': ob.info.get('kind', 'post'), 'model': model,
                                                'detail': v.detail, 'path': ''.join('T' if d else 'F' for d in p.trace),
                                                'info': {k: str(x) for k, x in ob.info.items()}})
+        if unit.kind != 'lemma' and res['paths'] == 0 and not res['unsupported']:
+            res['error'] = 'vacuous unit: no feasible path (contradictory requires?)'
     except Exception:
         res['error'] = traceback.format_exc()
     res['seconds'] = time.time() - t0
